@@ -128,3 +128,108 @@ Section Widen.
   Definition arity_kept (main : bool) (sel sort_cols : list nat) : bool :=
     Nat.eqb (length (select_after main sel sort_cols)) (length sel).
 End Widen.
+
+(* ---- column identity: the same inference on sort keys that ARE lists of (column id, descending), with what happens to
+   the ids: `CidRedirector::redirect_sorts` at a From (the sorting inherited from the CTE is mapped through the cid_redirects
+   of the relation instance that reads it), the widening of the CTE's first SELECT, and the book-keeping of fold_sql_query:
+   every column the widening added gets a fresh id in the FIRST (smallest riid) relation instance that reads the CTE, and a
+   redirect old -> new there.  Mirrors postprocess.rs fold_sql_query / fold_sql_transforms for CTEs that are one atomic
+   pipeline and Froms that are references; the final ORDER BY of the main query (alias_last_sorting) is not modelled. *)
+Section Cid.
+  Definition skey := list (nat * bool).
+  Definition skey_empty (k : skey) : bool := match k with [] => true | _ => false end.
+
+  Definition redirect_cid (rd : list (nat * nat)) (c : nat) : nat :=
+    match find (fun p => Nat.eqb (fst p) c) rd with Some p => snd p | None => c end.
+  Definition redirect_sorts (rd : list (nat * nat)) (k : skey) : skey := map (fun cb => (redirect_cid rd (fst cb), snd cb)) k.
+
+  Inductive citem :=
+  | CFrom (tid riid : nat) | CSort (k : skey) | CReset | CJoin | CTake (part_empty : bool) (emb : skey) | CDistinctOn
+  | CSelect (cids : list nat) | COther.
+
+  Definition rd_of (rds : list (nat * list (nat * nat))) (riid : nat) : list (nat * nat) :=
+    match find (fun p => Nat.eqb (fst p) riid) rds with Some p => snd p | None => [] end.
+
+  Definition cstep (ctes : list (nat * st skey)) (rds : list (nat * list (nat * nat))) (s : st skey) (i : citem) : st skey * list citem :=
+    match i with
+    | CFrom tid riid =>
+        let s0 := lookup skey [] ctes tid in
+        (mkst skey (redirect_sorts (rd_of rds riid) (sorting skey s0)) (fdo skey s0), [i])
+    | CSort k => (mkst skey k false, [])
+    | CReset => (mkst skey [] false, [i])
+    | CJoin => (if fdo skey s then mkst skey [] false else s, [i])
+    | CTake pe emb => (s, [CSort (if pe && negb (skey_empty emb) then emb else sorting skey s); i])
+    | CDistinctOn => (mkst skey (sorting skey s) true, [CSort (sorting skey s); i])
+    | CSelect _ | COther => (s, [i])
+    end.
+
+  Fixpoint crun (ctes : list (nat * st skey)) (rds : list (nat * list (nat * nat))) (s : st skey) (p : list citem) : st skey * list citem :=
+    match p with
+    | [] => (s, [])
+    | i :: r => let '(s1, o1) := cstep ctes rds s i in let '(s2, o2) := crun ctes rds s1 r in (s2, o1 ++ o2)
+    end.
+
+  Fixpoint widen_first (p : list citem) (cols : list nat) : list citem :=
+    match p with
+    | [] => []
+    | CSelect sel :: r => CSelect (widen sel cols) :: r
+    | i :: r => i :: widen_first r cols
+    end.
+  Definition last_select (p : list citem) : option (list nat) :=
+    fold_left (fun acc i => match i with CSelect sel => Some sel | _ => acc end) p None.
+
+  Record cstate := mkCstate { cs_ctes : list (nat * st skey); cs_rds : list (nat * list (nat * nat)); cs_next : nat }.
+
+  Fixpoint add_redirects (news : list nat) (next : nat) (rd : list (nat * nat)) : list (nat * nat) * nat :=
+    match news with
+    | [] => (rd, next)
+    | c :: r => add_redirects r (S next) ((c, next) :: filter (fun p => negb (Nat.eqb (fst p) c)) rd)
+    end.
+  Fixpoint set_rd (rds : list (nat * list (nat * nat))) (riid : nat) (rd : list (nat * nat)) : list (nat * list (nat * nat)) :=
+    match rds with
+    | [] => [(riid, rd)]
+    | (r, x) :: t => if Nat.eqb r riid then (r, rd) :: t else (r, x) :: set_rd t riid rd
+    end.
+  (* the relation instance with the smallest riid whose source is the CTE *)
+  Definition first_reader (insts : list (nat * nat)) (tid : nat) : option nat :=
+    fold_left (fun acc p => if Nat.eqb (snd p) tid then match acc with Some m => Some (Nat.min m (fst p)) | None => Some (fst p) end else acc) insts None.
+
+  (* one CTE of fold_sql_query *)
+  Definition fold_cte (insts : list (nat * nat)) (cs : cstate) (tid : nat) (p : list citem) : cstate * list citem :=
+    let before := last_select p in
+    let '(s, o) := crun (cs_ctes cs) (cs_rds cs) (mkst skey [] false) p in
+    let o := widen_first o (map fst (sorting skey s)) in
+    let after := last_select o in
+    let news := match before, after with
+                | Some b, Some a => filter (fun c => negb (existsb (Nat.eqb c) b)) a
+                | _, _ => []
+                end in
+    let '(rds, next) :=
+      match news, first_reader insts tid with
+      | _ :: _, Some riid => let '(rd, nx) := add_redirects news (cs_next cs) (rd_of (cs_rds cs) riid) in (set_rd (cs_rds cs) riid rd, nx)
+      | _, _ => (cs_rds cs, cs_next cs)
+      end in
+    (mkCstate ((tid, s) :: cs_ctes cs) rds next, o).
+
+  Fixpoint fold_ctes (insts : list (nat * nat)) (cs : cstate) (ctes : list (nat * list citem)) : cstate * list (nat * list citem) :=
+    match ctes with
+    | [] => (cs, [])
+    | (tid, p) :: r => let '(cs1, o) := fold_cte insts cs tid p in let '(cs2, os) := fold_ctes insts cs1 r in (cs2, (tid, o) :: os)
+    end.
+
+  (* the whole query: CTEs, then the main relation (its appended final Sort is alias_last_sorting's business: only its directions
+     are given, as the kind-level model does) *)
+  Definition fold_query (insts : list (nat * nat)) (rds : list (nat * list (nat * nat))) (next : nat)
+                        (ctes : list (nat * list citem)) (main : list citem) : cstate * list (nat * list citem) * list citem * skey :=
+    let '(cs, os) := fold_ctes insts (mkCstate [] rds next) ctes in
+    let '(s, o) := crun (cs_ctes cs) (cs_rds cs) (mkst skey [] false) main in
+    (cs, os, o, sorting skey s).
+
+  (* ---- erasure to the kind-level model (keys = lists of directions) ---- *)
+  Definition erase_item (i : citem) : item (list bool) :=
+    match i with
+    | CFrom tid _ => IFromRef tid | CSort k => ISort (map snd k) | CReset => IReset | CJoin => IJoin
+    | CTake pe emb => ITake pe (map snd emb) | CDistinctOn => IDistinctOn | CSelect _ | COther => IOther
+    end.
+  Definition erase_st (s : st skey) : st (list bool) := mkst (list bool) (map snd (sorting skey s)) (fdo skey s).
+End Cid.
